@@ -174,13 +174,13 @@ def run_clip(ctx, cv, chosen, clips, buffer, via):
                 out = cv.apply_clip_mask(mask, wb)
             elif via == 'mask_file_reused' and not ctx.symbolic:
                 # masks are saved to a file and read back before they are applied; the file name was used before, in
-                # this process, for another mask (everything kept) that was applied to a sibling dataset
+                # this process, for another mask (one corner cell kept) that was applied to a sibling dataset
                 import os
                 import shapely as _sh
                 p = os.path.join(wd, '..', f'reused-mask-{os.getpid()}.nc')
-                everything = _sh.box(*cv.bounds).buffer(1.0)
+                corner = next(q for q in cv.polygons if q is not None).representative_point()
                 sibling = type(cv)(cv.dataset.copy(deep=True))
-                m0 = sibling.make_clip_mask(everything, buffer=0)
+                m0 = sibling.make_clip_mask(corner, buffer=0)
                 m0.to_netcdf(p)
                 m0 = xarray.open_dataset(p)
                 wd0 = os.path.join(wd, 'earlier')
